@@ -13,8 +13,9 @@ import threading
 import vloop
 
 
-class Hang(Exception):
-    """the code under test did not give control back (a loop without a suspension point)"""
+class Hang(KeyboardInterrupt):
+    """the code under test did not give control back (a loop without a suspension point).
+    A KeyboardInterrupt subclass on purpose: asyncio tasks store any other exception as their result and the loop would go on."""
 
 
 class watchdog:
@@ -84,7 +85,7 @@ def run_q(coro_fn, seed=None, shuffle=False, jitter_ms=0, network=None):
                 t.cancel()
             if pend:
                 loop.run_until_complete(asyncio.gather(*pend, return_exceptions=True))
-        except Exception:  # noqa
+        except (Exception, Hang):  # noqa
             pass
         asyncio.set_event_loop(None)
         loop.close()
